@@ -185,6 +185,8 @@ pub const WORKLOADS: &[&str] = &[
     "bulk_merge_pairwise",
     "random_mix",
     "grow_shrink_grow",
+    "helper_treaps",
+    "tie_storm",
     "cross_thread_merge_few",
     "cross_thread_merge_many",
 ];
@@ -355,6 +357,70 @@ pub fn run_workload(name: &str, n: usize, seed: u64, rep: &mut Report) {
                 for i in 0..n / 2 {
                     grow!(if i % 2 == 0 { 0 } else { len }, i as u64);
                 }
+            }
+            "helper_treaps" => {
+                // every element goes through a short-lived helper treap that is created empty, filled and concatenated
+                for i in 0..n {
+                    let mut helper: Treap<KeyItem> = lib!(Treap::new());
+                    lib!(helper.insert_at(0, item(i as u64)));
+                    if i % 5 == 4 {
+                        lib!(helper.insert_at(1, item(i as u64)));
+                        len += 1;
+                    }
+                    let old = std::mem::take(&mut t);
+                    t = if i % 3 == 0 { lib!(Treap::merge(helper, old)) } else { lib!(Treap::merge(old, helper)) };
+                    len += 1;
+                    if !cx.staged(&t, len) {
+                        return;
+                    }
+                }
+            }
+            "tie_storm" => {
+                // priorities assigned through the public field from a tiny set, so almost every comparison is a tie: heap
+                // order (ties allowed) must survive any split / merge history; the height bound does not apply to
+                // caller-chosen priorities, so only order and node count are judged here
+                let m = n.min(3000);
+                let mut keep_checking = true;
+                for i in 0..m {
+                    let mut single = lib!(Treap::from_item(item(i as u64)));
+                    single.root.as_mut().unwrap().priority = [7u32, 7, 8, 7, 9][rng.usize_below(5)];
+                    let pos = rng.range_usize(0, len);
+                    let old = std::mem::take(&mut t);
+                    let (a, b) = lib!(old.split_at(pos));
+                    t = lib!(Treap::merge(Treap::merge(a, single), b));
+                    len += 1;
+                    if i % 7 == 0 && len > 2 {
+                        let k = rng.range_usize(1, len - 1);
+                        let old = std::mem::take(&mut t);
+                        let (a, b) = lib!(old.split_at(k));
+                        t = lib!(Treap::merge(b, a));
+                    }
+                    if i % 64 == 63 {
+                        let s = measure(&t);
+                        cx.rep.inc("checkpoints");
+                        cx.rep.count("edges_checked", s.edges);
+                        cx.rep.count("priority_ties_seen", s.ties);
+                        if (s.up_edges > 0 && s.down_edges > 0) || s.nodes != len {
+                            keep_checking = false;
+                            cx.failed = true;
+                            cx.violation(
+                                "heap_order",
+                                Json::obj()
+                                    .set("what", "with caller-assigned, mostly equal priorities the heap order is not kept consistently in one direction")
+                                    .set("edges_parent_lt_child", s.up_edges)
+                                    .set("edges_parent_gt_child", s.down_edges)
+                                    .set("nodes", s.nodes)
+                                    .set("want_nodes", len),
+                            );
+                            break;
+                        }
+                    }
+                }
+                // this workload ends here: no height judgement (degenerate by construction); leak the tree
+                let _ = keep_checking;
+                let tt = std::mem::take(&mut t);
+                std::mem::forget(tt);
+                return;
             }
             "cross_thread_merge_few" | "cross_thread_merge_many" => {
                 // treaps built on different threads (each thread owns its treap while building it), then moved to this
